@@ -595,6 +595,15 @@ fn plan_files(rng: &mut Rng, seeds: &BTreeMap<String, Vec<u8>>, lays: &BTreeMap<
         // re-open finds no valid footer and scan_range_for_toc hashes the tail of every offset of the grown file
         v.push(FileCase { base: "rich".into(), ops: vec![Op::Set(18, vec![0x41]), Op::Xor(l.len - 24, 1)], label: "quadratic-scan-witness".into() });
     }
+    if let Some(l) = lays.get("rich") {
+        // damaged bytes inside the embedded Tantivy segments (the parser behind them is a black box that panics on
+        // damaged input; offset 84000 is the witness of fixes/C22.diff: `search` panicked in tantivy-fst)
+        for f in l.fields.iter().filter(|f| f.name.starts_with("tantivy.") && f.end - f.start >= 64) {
+            let mut offs = vec![f.start + (f.end - f.start) / 2, f.end - 12];
+            if f.start <= 84000 && 84004 <= f.end { offs.push(84000); }
+            for o in offs { v.push(FileCase { base: "rich".into(), ops: vec![Op::Set(o, vec![0xFF; 4])], label: format!("blank:{}", f.name) }); }
+        }
+    }
     let names: Vec<String> = lays.keys().cloned().collect();
     // truncation at every field boundary of every seed (±1 on a sample)
     for s in &names {
